@@ -1421,11 +1421,12 @@ class Generator:
         op = {"op": "groupby_agg", "src": m.id, "by": by}
         if any(m.cols[c] == "cat" for c in by):
             op["observed"] = self.rng.random() < 0.5
-        fns = ["sum", "mean", "count", "min", "max", "size", "var", "std", "nunique"]
+        # no size(): its result name turns NaN over empty partitions / shuffle paths (KF-C10-size-name, probed under C10)
+        fns = ["sum", "mean", "count", "min", "max", "var", "std", "nunique"]
         if m.order == "defined":
             fns += ["first", "last"]
         if not vals:
-            op["fn"] = "size"
+            return None
         elif self.rng.random() < 0.4:
             chosen = self.rng.sample(vals, self.rng.randint(1, min(2, len(vals))))
             op["agg"] = {c: self.rng.choice(["sum", "mean", "count", "min", "max", "var"]) for c in chosen}
